@@ -604,3 +604,12 @@ fault("C13.greedy-marker-name-char", "C13", GR, '            "!" if greedy else 
       edits=[('            "!" if greedy else "",\n', '            "_g" if greedy else "",\n'), ('                        f"{symbol_name}!",\n', '                        f"{symbol_name}_g",\n')])
 benign("C13.b-greedy-marker-other", "C13", GR, '            "!" if greedy else "",\n', '            "*!" if greedy else "",\n',
        edits=[('            "!" if greedy else "",\n', '            "*!" if greedy else "",\n'), ('                        f"{symbol_name}!",\n', '                        f"{symbol_name}*!",\n')])
+benign("C09.b-override-subscript", "C09", GR, "            # 3. Symbol name\n            if action is None:\n                if action_overrides:\n                    action = action_overrides.get(symbol.name, None)\n",
+       "            # 3. Symbol name\n            if action is None:\n                if action_overrides and symbol.name in action_overrides:\n                    action = action_overrides[symbol.name]\n")
+benign("C12.b-loader-ifexp", "C12", "parglare/tables/persist.py",
+       "                if \"state_id\" in json_action:\n                    act_state = states_dict[json_action[\"state_id\"]]\n                else:\n                    act_state = None\n",
+       "                act_state = states_dict[json_action[\"state_id\"]] if \"state_id\" in json_action else None\n")
+benign("C05.b-id-before-enqueue", "C05", T, "                state_queue.append(target_state)\n                state_id += 1\n", "                state_id += 1\n                state_queue.append(target_state)\n")
+benign("C06.b-max-prior-ordered", "C06", T, "        state._max_prior_per_symbol = {}\n", "        state._max_prior_per_symbol = dict()\n")
+benign("C10.b-position-none-test", "C10", "parglare/common.py", "    def evaluate_line_col(self):\n        self._line, self._column = pos_to_line_col(self.input_str, self.start_position)\n",
+       "    def evaluate_line_col(self):\n        if self.start_position is not None:\n            self._line, self._column = pos_to_line_col(self.input_str, self.start_position)\n        else:\n            self._line, self._column = None, None\n")
